@@ -732,6 +732,18 @@ class Interp:
         mk = set(ins[0][1].mem)
         for _, s in ins[1:]:
             mk &= set(s.mem)
+        # a field of a *local* written on some paths only must not silently revert to the value the
+        # local's aggregate had before: give the other paths the value a read would see there
+        partial = set()
+        for _, s in ins:
+            for k in s.mem:
+                if k not in mk and root_of(k)[0] == 'local':
+                    partial.add(k)
+        for k in partial:
+            for _, s in ins:
+                if k not in s.mem:
+                    s.mem[k] = self.read(s, k)
+            mk.add(k)
         same_epoch = all(s.epoch == ins[0][1].epoch for _, s in ins)
         for k in mk:
             vals = [(p, s.mem[k]) for p, s in ins]
